@@ -451,6 +451,10 @@ def run_cross_rules(ctx):
         ('override_default_constant', lambda: M.FormulaGrader(variables=['pi'])),
         ('override_default_constant', lambda: M.FormulaGrader(user_constants={'e': 3})),
         ('override_default_constant', lambda: M.FormulaGrader(numbered_vars=['i'])),
+        # infty is a default constant of every grader that allows infinities
+        ('override_default_constant', lambda: M.FormulaGrader(allow_inf=True, variables=['infty'])),
+        ('override_default_constant', lambda: M.NumericalGrader(allow_inf=True, user_constants={'infty': 5})),
+        ('override_default_constant', lambda: M.FormulaGrader(allow_inf=True, numbered_vars=['infty'])),
         # the rule reads the class defaults, not what an earlier grader did with its own copy of them
         ('override_default_constant_after_another_grader_deleted_it', lambda: (
             M.SumGrader(answers={'lower': '1', 'upper': '2', 'summand': 'n', 'summation_variable': 'n'}, user_constants={'pi': None}),
@@ -520,7 +524,10 @@ def run_cross_rules(ctx):
             ('hermitian_is_complex', lambda: M.SquareMatrices(symmetry='hermitian'), 'complex', True),
             ('antihermitian_is_complex', lambda: M.SquareMatrices(symmetry='antihermitian'), 'complex', True),
             ('antihermitian_is_complex', lambda: M.SquareMatrices(symmetry='antihermitian', complex=False, dimension=3), 'complex', True),
-            ('symmetric_stays_real', lambda: M.SquareMatrices(symmetry='symmetric'), 'complex', False)]:
+            ('symmetric_stays_real', lambda: M.SquareMatrices(symmetry='symmetric'), 'complex', False),
+            # an option whose documented default is computed: None, given explicitly, is the same as leaving it out
+            ('interval_subgrader_none_is_default', lambda: M.IntervalGrader(subgrader=None) == M.IntervalGrader() and M.IntervalGrader({'subgrader': None, 'answers': '[1,2]'}), 'delimiter', ','),
+            ('suppressed_override_of_infty_kept', lambda: M.NumericalGrader(allow_inf=True, user_constants={'infty': 5}, suppress_warnings=True, answers='5')(None, 'infty')['ok'] is True and M.NumericalGrader(), 'debug', False)]:
         ctx.ev()
         ctx.count('constructions')
         ctx.count('normalisation_checks')
@@ -529,7 +536,10 @@ def run_cross_rules(ctx):
         except Exception as exc:  # noqa
             ctx.violation('C20:legal_configuration_rejected:' + kind, repr(exc)[:200], {'rule': kind})
             continue
-        if obj.config.get(key) is not want:
+        if obj is False or (obj.config.get(key) is not want and obj.config.get(key) != want):
+            if obj is False:
+                ctx.violation('C20:documented_normalisation:' + kind, 'the documented equivalence does not hold', {'rule': kind})
+                continue
             ctx.violation('C20:documented_normalisation:' + kind, 'config[%r] is %r, documented: %r' % (key, obj.config.get(key), want), {'rule': kind})
     # positive controls: the same constructions made legal
     for kind, make in [
